@@ -210,33 +210,7 @@ def run(ctx):
                 ctx.report(r_dedup, "%s:%s" % (kind, src), "%s gathers `%s` from several index rows (flatten) into %s and removes each element: an annotation listed in two rows is removed twice and the second removal fails, aborting the cascade half-way" % (fn.qual, src, ty_ or init or "a list"), fn.file, line)
     ctx.floor(r_dedup, n_dd, 2, "multi-row cascades")
 
-    # ---------------- PRED
-    r_pred = ctx.rule("C02.PRED", "Annotation::remove_data keeps an entry iff it differs from the removed (set, data) pair")
-    ard = syn.fn("remove_data", self_ty="Annotation")
-    ctx.functions_analysed.add(ard.qual)
-    params = [i["pat"].get("name") for i in ard.sig["inputs"]]
-    rets = [n for n in walk(ard.body) if n.get("k") == "mcall" and n["method"] == "retain"]
-    if len(rets) != 1 or len(params) != 2 or not rets[0]["args"] or rets[0]["args"][0].get("k") != "closure":
-        ctx.anchor_missing(r_pred, "self.data.retain(|(s, d)| ..) in Annotation::remove_data")
-    else:
-        cl = rets[0]["args"][0]
-        names = [p["name"] for p in walk(cl["inputs"][0]) if p.get("k") == "pat" and p.get("p") == "ident"] if cl["inputs"] else []
-        if len(names) != 2:
-            ctx.anchor_missing(r_pred, "closure parameters (s, d)")
-        else:
-            for s in (0, 1):
-                for d in (0, 1):
-                    env = {names[0]: s, names[1]: d, params[0]: 0, params[1]: 0}
-                    r_pred.hit("s%s=set,d%s=data" % ("=" if s == 0 else "!", "=" if d == 0 else "!"))
-                    try:
-                        keep = Evaluator().eval(cl["body"], env)
-                    except (Unknown, Panic) as e:
-                        ctx.report(r_pred, "uninterpretable", "the retain predicate is outside the comparison vocabulary (%s)" % e, ard.file, cl["l"])
-                        break
-                    want = not (s == 0 and d == 0)
-                    if keep != want:
-                        ctx.report(r_pred, "truth-table", "retain predicate `%s` %s an entry with set %s and data %s the removed pair; it must keep exactly the entries that differ from (set, data)" % (
-                            unparse(cl["body"]), "keeps" if keep else "drops", "==" if s == 0 else "!=", "==" if d == 0 else "!="), ard.file, cl["l"], {"s_equal": s == 0, "d_equal": d == 0, "keeps": keep})
+    pred_rule(ctx, syn)
 
     # ---------------- STRICT
     r_strict = ctx.rule("C02.STRICT", "in non-strict mode remove_data drops the data reference and removes the annotation only when no data is left")
@@ -581,3 +555,40 @@ def presence_rule(ctx, prog):
             if not ok:
                 ctx.report(r, k, "%s calls StoreFor::<Annotation>::%s(%s)? inside a loop in which annotations are removed: when an earlier removal has cascaded to this annotation (it depends on one removed before it) the call fails and the operation stops half-way, leaving the store partly changed" % (bid, name, key_h), b.file, t.get("line"))
     ctx.floor(r, n, 1, "presence-requiring accesses inside removal loops")
+
+
+def pred_rule(ctx, syn, rid="C02.PRED"):
+    """Annotation::remove_data: the retain predicate evaluated on the four (set equal?, data equal?) cases"""
+    r_pred = ctx.rule(rid, "Annotation::remove_data keeps an entry iff it differs from the removed (set, data) pair")
+    ard = syn.fn("remove_data", self_ty="Annotation")
+    ctx.functions_analysed.add(ard.qual)
+    params = [i["pat"].get("name") for i in ard.sig["inputs"]]
+    rets = [n for n in walk(ard.body) if n.get("k") == "mcall" and n["method"] == "retain"]
+    if len(rets) != 1 or len(params) != 2 or not rets[0]["args"] or rets[0]["args"][0].get("k") != "closure":
+        ctx.anchor_missing(r_pred, "self.data.retain(|(s, d)| ..) in Annotation::remove_data")
+    else:
+        cl = rets[0]["args"][0]
+        from formula import match_pat
+        probe = {}
+        try:
+            shape_ok = bool(cl["inputs"]) and match_pat(cl["inputs"][0], (0, 0), probe)
+        except Unknown:
+            shape_ok = False
+        if not shape_ok:
+            ctx.anchor_missing(r_pred, "closure parameter of retain: a pattern over the (set, data) pair")
+        else:
+            for s in (0, 1):
+                for d in (0, 1):
+                    env = {params[0]: 0, params[1]: 0}
+                    match_pat(cl["inputs"][0], (s, d), env)   # a wildcard binds nothing: the predicate then ignores that half
+                    r_pred.hit("s%s=set,d%s=data" % ("=" if s == 0 else "!", "=" if d == 0 else "!"))
+                    try:
+                        keep = Evaluator().eval(cl["body"], env)
+                    except (Unknown, Panic) as e:
+                        ctx.report(r_pred, "uninterpretable", "the retain predicate is outside the comparison vocabulary (%s)" % e, ard.file, cl["l"])
+                        break
+                    want = not (s == 0 and d == 0)
+                    if keep != want:
+                        ctx.report(r_pred, "truth-table", "retain predicate `%s` %s an entry with set %s and data %s the removed pair; it must keep exactly the entries that differ from (set, data)" % (
+                            unparse(cl["body"]), "keeps" if keep else "drops", "==" if s == 0 else "!=", "==" if d == 0 else "!="), ard.file, cl["l"], {"s_equal": s == 0, "d_equal": d == 0, "keeps": keep})
+
